@@ -79,7 +79,9 @@ theorem C19_never_again_error (env : Env) (s₀ s s' : State) (txs₀ : List Tx)
   have hm : s.coins.getCoin (markerOf env tx) = some faucetMarkerCoin :=
     FLifeL.applyBatch_marker h₀ htx hk hng hsep₀
   have hm' := C19_marker_forever env (markerOf env tx) s s' hrun hm
-  exact C19_duplicate_error env s' tx fb hk (by rw [hm']; rfl) (.inl hnet) hwf hin
+  -- the covenant weights fit: the transaction has been accepted once (`h₀`), so it passed `loadRelevantCoins`
+  have hcw : tx.covWeightsFit = true := FLifeL.applyBatch_covWeightsFit h₀ htx
+  exact C19_duplicate_error env s' tx fb hk (by rw [hm']; rfl) (.inl hnet) hwf hcw hin
 
 /-- non-vacuity: a run with a batch and a block after the faucet's batch exists and meets the hypotheses -/
 theorem C19_never_again_nonvacuous :
